@@ -304,7 +304,7 @@ def c04(pid, tier, seed, t0):
         H("search-checked", "c04", "checked", group="c04"),
         H("search-opt", "c04", "opt", group="c04-opt"),
         H("search-asan", "c04", "asan", group="c04-asan", tiers=("thorough",), args=["--cases", "6000", "--depth-budget", "6"]),
-        M("search-miri", "miri-c04", [["--root-lo", str(i), "--root-hi", str(i + 1), "--depth", "2"] for i in range(0, 10, 2)]),
+        M("search-miri", "miri-c04", [["--root-lo", str(i), "--root-hi", str(i + 1), "--depth", "3"] for i in range(0, 10, 2)]),
         P("binary-sessions", _pm2("c04_stage")),
     ]
     return run_stages(pid, tier, seed, t0, "exploration", stages, required=SEARCH_FEATURES + ("searches",),
